@@ -18,6 +18,7 @@ import (
 	goast "go/ast"
 	goparser "go/parser"
 	gotoken "go/token"
+	"go/types"
 	"os"
 	"strconv"
 	"strings"
@@ -88,6 +89,27 @@ func main() {
 		if err := json.Unmarshal(sc.Bytes(), &c); err != nil {
 			fmt.Fprintf(w, "?\tbadcase\t\n")
 			continue
+		}
+		// a generated program is used only if it IS valid Go (go/types on the source): a generator bug must
+		// not look like a compiler defect
+		if *mode == "emit" {
+			fset := gotoken.NewFileSet()
+			f, perr := goparser.ParseFile(fset, "main.go", c.Src, 0)
+			why := ""
+			if perr != nil {
+				why = perr.Error()
+			} else {
+				var errs []string
+				conf := types.Config{Importer: exp.Importer(fset), Error: func(e error) { errs = append(errs, e.Error()) }}
+				conf.Check("main", fset, []*goast.File{f}, nil)
+				if len(errs) > 0 {
+					why = errs[0]
+				}
+			}
+			if why != "" {
+				fmt.Fprintf(w, "%s\tinvalid-go\t%s\n", c.ID, strconv.Quote(why))
+				continue
+			}
 		}
 		// the same source saved as an .xgo file; //line comments off so that panics of the two
 		// binaries are compared on their values, not on file names
